@@ -475,6 +475,8 @@ impl Updater<'_> {
             continue;
           }
           // Send this outpoint to background thread to be fetched
+          #[cfg(ordinals_ord_verif)]
+          verif_fetch::request(self.height, prev_output);
           output_sender.blocking_send(prev_output)?;
         }
       }
@@ -583,6 +585,9 @@ impl Updater<'_> {
                 )
               })?;
 
+              #[cfg(ordinals_ord_verif)]
+              verif_fetch::receive(self.height, input.previous_output, txout.value.to_sat());
+
               let mut entry = UtxoEntryBuf::new();
               entry.push_value(txout.value.to_sat(), self.index);
               if self.index.index_addresses {
@@ -601,6 +606,9 @@ impl Updater<'_> {
         .iter()
         .map(|entry| entry.parse(self.index))
         .collect::<Vec<ParsedUtxoEntry>>();
+
+      #[cfg(ordinals_ord_verif)]
+      verif_fetch::inputs(self.height, *txid, tx, &input_utxo_entries);
 
       let mut output_utxo_entries = tx
         .output
